@@ -115,7 +115,10 @@ class Check(common.Check):
                 return int(v)
             return {'f': fr(v)}
         return G.choice([None, {'f': '-1'}, {'f': '-1/4'}, 0, {'f': '0'}, 1, 2, {'f': '1/8'}, {'f': '1/4'},
-                         {'f': '1/2'}, {'f': '1'}, {'f': '3/2'}, {'f': '5'}])
+                         {'f': '1/2'}, {'f': '1'}, {'f': '3/2'}, {'f': '5'},
+                         {'f': '1/4294967296'}, {'f': '4294967299/4294967296'},      # one / three timetag units
+                         {'f': '1/1099511627776'}, {'f': '1099511627777/1099511627776'},    # below the resolution
+                         {'f': '3/17179869184'}, {'f': '17179869187/17179869184'}])          # 3/4 of a unit
 
     def gen_bundle(self, G, depth=0, parent=None, deep=False):
         L = self.gen_lat(G, parent)
@@ -151,7 +154,7 @@ class Check(common.Check):
                     steps.append(['B', None])
                 else:
                     steps.append(['m', self.gen_msg(G)])
-            c['routines'].append({'clock': G.choice('sst'), 'start': fr(G.choice([Fr(0), Fr(1, 8), Fr(1, 4), Fr(1), Fr(5, 4)])),
+            c['routines'].append({'fn': G.random() < 0.25, 'clock': G.choice('sst'), 'start': fr(G.choice([Fr(0), Fr(1, 8), Fr(1, 4), Fr(1), Fr(5, 4)])),
                                   'steps': steps})
         return c
 
@@ -159,11 +162,16 @@ class Check(common.Check):
         return [self.gen_one(rng) for _ in range(n)]
 
     # ---- runners ---------------------------------------------------------------------------
+    RT_CHUNK = 40      # virtual time grows by 80 s per case; below 4096 s sums with 2^-40 s stay exact
+
     def impl(self, cases):
-        rt, err = common.run_impl('c07', 'run_rt', {'cases': cases})
-        if rt is None:
-            self.notes.append(err)
-            return None
+        rt = []
+        for i in range(0, len(cases), self.RT_CHUNK):
+            part, err = common.run_impl('c07', 'run_rt', {'cases': cases[i:i + self.RT_CHUNK]})
+            if part is None:
+                self.notes.append(err)
+                return None
+            rt.extend(part)
         nrt, err = common.run_impl('c07', 'run_nrt', {'cases': cases})
         if nrt is None:
             self.notes.append(err)
@@ -234,7 +242,7 @@ class Check(common.Check):
                 kind, val = self.send_value(c, rec['who'], rec['k'])
                 if kind == 'm':
                     val = [{'f': '0'}, val]           # send_msg in NRT = bundle at the current time
-                inr = 0 if rec['who'] == 'main' else 1
+                inr = 0 if (rec['who'] == 'main' or c['routines'][rec['who']].get('fn')) else 1
                 p['nrt'].append(len(lines2))
                 lines2.append(f'nrt-add {inr} {secs("nrt", rec["who"], rec["k"])} {tok(val)}')
             # process(tail): finish on the main thread whose time is that of the last executed task
@@ -370,8 +378,15 @@ class Check(common.Check):
         """expected (times Fractions, messages JSON) vs score.list entry (JSON)"""
         if len(exp) != len(got):
             return False
+        if not isinstance(got, list) or not got:
+            return False
         t = got[0]
-        tv = Fr(t['f']) if isinstance(t, dict) else (Fr(int(t)) if isinstance(t, int) and not isinstance(t, bool) else None)
+        if isinstance(t, dict) and 'f' in t:
+            tv = Fr(t['f'])
+        elif isinstance(t, int) and not isinstance(t, bool):
+            tv = Fr(t)
+        else:
+            return False
         if tv != exp[0]:
             return False
         for e, g in zip(exp[1:], got[1:]):
@@ -440,7 +455,7 @@ class Check(common.Check):
         for rec in nrt['sends']:
             kind, val = self.send_value(case, rec['who'], rec['k'])
             base = self.logical(case, rec['who'], rec['k'], Fr(0))
-            inr = rec['who'] != 'main'
+            inr = rec['who'] != 'main' and not case['routines'][rec['who']].get('fn')
             if kind == 'm':
                 val = [{'f': '0'}, val]
             ok = self.valid(val)
